@@ -14,6 +14,11 @@ os.makedirs("/tmp/mut", exist_ok=True)
 if not os.path.isdir(wt): sh("git", "-C", "/repo", "worktree", "add", "--detach", wt, "HEAD")
 for name in names:
     d = os.path.join(root, "seeded", name); p = os.path.join(d, "patch.diff")
+    try:
+        if json.load(open(os.path.join(d, "meta.json"))).get("obsolete_on_head"):
+            continue
+    except Exception:
+        pass
     if sh("git", "-C", "/repo", "apply", "--check", p).returncode == 0:
         if len(sys.argv) > 1: print(name, "applies; nothing to do")
         continue
